@@ -14,7 +14,8 @@ import sys
 import time
 import traceback
 from pathlib import Path
-from typing import Any, Callable, Dict, List, Optional
+import re
+from typing import Any, Callable, Dict, List, Optional, Tuple
 
 ROOT = Path(__file__).resolve().parent.parent
 REPO = Path(os.environ.get("VERIF_REPO", "/repo"))
@@ -431,3 +432,76 @@ def quiet_logging() -> None:
     import logging
 
     logging.disable(logging.CRITICAL)
+
+
+def fuzz_campaign(run: Run, replay_fn: Callable[[Run, dict, str], List[Tuple[str, str]]], workers: int, runs: int, max_len: int = 256) -> Dict[str, Any]:
+    """Coverage-guided supplement (atheris / libFuzzer, vf.fuzz_cel) for the thorough tiers of C03 / C04: ``workers`` independent processes with derived
+    libFuzzer seeds, half starting from an empty corpus and half from small valid inputs; every finding is re-run through the check's own
+    ``replay_fn`` in this process and only what reproduces there is reported. Returns campaign statistics; {} (with an event) when atheris is missing."""
+    import shutil
+    import subprocess
+    import tempfile
+
+    root = str(ROOT)
+    deps = os.path.join(root, ".deps")
+    env = dict(os.environ)
+    env["PYTHONPATH"] = os.pathsep.join([p for p in env.get("PYTHONPATH", "").split(os.pathsep) if p] + [deps])
+    probe = subprocess.run([sys.executable, "-c", "import atheris"], env=env, capture_output=True)
+    if probe.returncode != 0:
+        run.event("fuzz-skipped-atheris-missing")
+        return {}
+    os.makedirs(os.path.join(root, ".cache"), exist_ok=True)
+    base = tempfile.mkdtemp(prefix="fuzz-", dir=os.path.join(root, ".cache"))
+    procs = []
+    try:
+        from vf import corpus as _corpus
+
+        seeds_text = [e for e in _corpus.expressions() if len(e) < 60][:: max(1, len(_corpus.expressions()) // 150)]
+        for i in range(workers):
+            cdir = os.path.join(base, f"corpus-{i}")
+            os.makedirs(cdir)
+            if i % 2 == 1:  # small valid inputs in the data-provider layout: ASCII marker, text, then activation and mode bytes consumed from the end
+                for j, t in enumerate(seeds_text):
+                    with open(os.path.join(cdir, f"seed-{j}"), "wb") as f:
+                        f.write(b"\x00" + t.encode("ascii", "ignore") + bytes([1, 0]))
+            out = os.path.join(base, f"findings-{i}.json")
+            log = open(os.path.join(base, f"log-{i}.txt"), "wb")
+            procs.append((subprocess.Popen([sys.executable, "-m", "vf.fuzz_cel", out, cdir, f"-runs={runs}", f"-seed={run.seed * 1000 + i + 1}", f"-max_len={max_len}",
+                                            f"-artifact_prefix={base}/", "-print_final_stats=1"], env=env, stdout=log, stderr=subprocess.STDOUT, cwd=root), out, log, i))
+        stats = {"workers": workers, "runs_per_worker": runs, "iterations": 0, "evaluated": 0, "distinct_nontrivial": 0, "coverage_edges": [], "keys_seen": {}, "reproduced": 0, "not_reproduced": 0}
+        seen_keys = set()
+        for p, out, log, i in procs:
+            p.wait()
+            log.close()
+            tail = open(log.name, "rb").read()[-4000:].decode("utf-8", "replace")
+            m = re.findall(r"cov: (\d+)", open(log.name, "rb").read().decode("utf-8", "replace"))
+            if m:
+                stats["coverage_edges"].append(int(m[-1]))
+            if not os.path.exists(out):
+                raise HarnessError(f"fuzz worker {i} produced no findings file: {tail[-600:]}")
+            doc = json.load(open(out))
+            if doc["iterations"] < min(runs, 500) // 2:
+                raise HarnessError(f"fuzz worker {i} stopped after {doc['iterations']} iterations: {tail[-800:]}")
+            stats["iterations"] += doc["iterations"]
+            stats["evaluated"] += doc["evaluated"]
+            stats["distinct_nontrivial"] += doc["distinct_nontrivial"]
+            for f in doc["findings"]:
+                stats["keys_seen"][f["key"]] = stats["keys_seen"].get(f["key"], 0) + 1
+                if f["key"] in seen_keys:
+                    continue
+                seen_keys.add(f["key"])
+                problems = replay_fn(run, f["case"], f["key"])
+                if problems:
+                    stats["reproduced"] += 1
+                    for k, d in problems:
+                        run.fail(k, f["case"], d)
+                else:
+                    stats["not_reproduced"] += 1  # another property's oracle (C03 vs C04), or state that leaked between fuzz iterations
+        run.tick(stats["evaluated"])
+        run.event("fuzz-iterations", stats["iterations"])
+        return stats
+    finally:
+        for p, *_ in procs:
+            if p.poll() is None:
+                p.kill()
+        shutil.rmtree(base, ignore_errors=True)
